@@ -39,6 +39,8 @@ CONSTANTS Depths,      \* nesting depths explored, subset of 1..3
           Spellings,   \* spelling of output references written in main (see SibRef)
           PassDowns,   \* how a reference travels down through workflow parameters (see PVal/DeepX)
           Bindings,    \* how the plain parameter of the producers is bound (see MArgs/GArgs)
+          VarModes,    \* private `variables` of the producer template: "none", "priv" (a name nobody else uses),
+                       \* "shadow" (called g, like the parameter g of every workflow that calls it)
           Muts,        \* single-fault mutations (see Build); "none" must not be listed here
           MutNamings,  \* naming schemes the mutations are applied to
           Full,        \* TRUE: full product of the dimensions; FALSE: Bindings vary only for the canonical spelling
@@ -61,6 +63,8 @@ ParX(p, segs, m)  == Tok("par", p, segs, 0, FALSE, m)        \* %(p)s/segs..:m  
 Ref(segs, cut, q, m) == Tok("ref", "", segs, cut, q, m)
 Bad(segs, m)      == Tok("bad", "", segs, 0, FALSE, m)       \* <s1/..:m>  the method inside the brackets: malformed
 Sfx(segs, m)      == Tok("sfx", "", segs, 0, FALSE, m)       \* left-over text "/segs:m" (only in resolved values)
+Var(v)            == Tok("var", v, <<>>, 0, FALSE, "")       \* %(v)s of a private variable of the component: it stays in
+                                                             \* the arguments, FlowIR binds it to the component's variable
 
 (* Structure of the step names used by the family.  st: stage index the name carries (stageN. prefix, default 0), *)
 (* b: base, k: literal roman suffix (-I = 1, -II = 2), dg: the name ends with a digit.                            *)
@@ -76,7 +80,8 @@ Info(n) == CASE n = "foo-I"      -> [st |-> 0, b |-> "foo", k |-> 1, dg |-> FALS
 (*  ns = [entry, eargs, wfs, comps]                                         *)
 (*  wf  = [name, params, steps, exec]   steps: <<[name, tmpl]>> (the `steps` dictionary, ordered)                 *)
 (*                                      exec : <<[target, args]>> (the `execute` list), args: <<[n, v]>>          *)
-(*  comp = [name, params, args]         args: the value of command.arguments                                      *)
+(*  comp = [name, params, vars, args]   args: the value of command.arguments; vars: <<[n, v]>> the private         *)
+(*                                      `variables` of the component (never set by a caller)                       *)
 (*  param = [n, hasD, d]                d: default value (a value without par tokens)                             *)
 
 Range(s) == {s[i] : i \in DOMAIN s}
@@ -89,6 +94,7 @@ Comp(n, t)    == n.comps[CHOOSE i \in DOMAIN n.comps : n.comps[i].name = t]
 ParamsOf(n, t) == IF HasWf(n, t) THEN Wf(n, t).params ELSE Comp(n, t).params
 ParamNames(ps) == {ps[i].n : i \in DOMAIN ps}
 ArgNames(as)   == {as[i].n : i \in DOMAIN as}
+VarNames(c)    == {c.vars[i].n : i \in DOMAIN c.vars}
 ArgVal(as, name) == as[CHOOSE i \in DOMAIN as : as[i].n = name].v
 StepNames(w)   == {w.steps[i].name : i \in DOMAIN w.steps}
 StepTmpl(w, s) == w.steps[CHOOSE i \in DOMAIN w.steps : w.steps[i].name = s].tmpl
@@ -109,15 +115,21 @@ ApplySuffix(v, t) ==
          THEN [v EXCEPT ![Len(v)] = [@ EXCEPT !.segs = @ \o t.segs, !.m = t.m]]
          ELSE v \o <<Sfx(t.segs, t.m)>>
 
-RECURSIVE ResolveFrom(_, _, _, _)
-ResolveFrom(val, i, env, pp) ==
+(* vs: the private variables of the component whose own text is resolved ({} for the arguments a caller writes:   *)
+(* those are evaluated in the scope of the CALLER, where a variable of the callee does not exist -- a caller's    *)
+(* %(g)s is the caller's parameter g even when the called component has a variable g).  Inside the component a    *)
+(* %(v)s of a variable is left for FlowIR; a name cannot be both a parameter and a variable of one component.     *)
+RECURSIVE ResolveFrom(_, _, _, _, _)
+ResolveFrom(val, i, env, pp, vs) ==
     IF i > Len(val) THEN <<>>
     ELSE LET t == val[i]
              here == CASE t.k = "ref" -> <<[t EXCEPT !.segs = pp \o @, !.cut = 0, !.q = FALSE]>>
+                       [] t.k = "par" /\ t.s \in vs -> <<Var(t.s)>>
                        [] t.k = "par" -> ApplySuffix(env[t.s], t)
                        [] OTHER       -> <<t>>
-         IN here \o ResolveFrom(val, i + 1, env, pp)
-Resolve(val, env, pp) == ResolveFrom(val, 1, env, pp)
+         IN here \o ResolveFrom(val, i + 1, env, pp, vs)
+Resolve(val, env, pp) == ResolveFrom(val, 1, env, pp, {})
+ResolveInComponent(c, env) == ResolveFrom(c.args, 1, env, <<>>, VarNames(c))
 
 (* The environment of an instantiated template: the caller's argument first, then the declared default          *)
 ChildEnv(n, tmpl, args, env, pp) ==
@@ -158,7 +170,7 @@ RECURSIVE TmplErrs(_, _, _)
 TmplErrs(n, t, stack) ==
     IF HasComp(n, t) /\ ~HasWf(n, t)
     THEN LET c == Comp(n, t)
-         IN IF ParRefs(c.args) \ ParamNames(c.params) # {}
+         IN IF ParRefs(c.args) \ (ParamNames(c.params) \cup VarNames(c)) # {}
             THEN {Err("component references unknown parameter", {Loc("components", t, -1)})} ELSE {}
     ELSE LET w == Wf(n, t)
              own == UNION {ExecErrs(n, w, i, stack \cup {t}) : i \in DOMAIN w.exec}
@@ -177,7 +189,11 @@ EntryErrs(n) ==
                                                          Loc("entrypoint", "", -1)}) :
                 p \in {x \in DOMAIN ps : ~ps[x].hasD /\ ps[x].n \notin ArgNames(n.eargs)}}
 
-StructErrs(n) == LET ee == EntryErrs(n) IN IF ee # {} THEN ee ELSE TmplErrs(n, n.entry, {})
+(* a component (reachable or not) whose variable is called like one of its own parameters *)
+ConflictErrs(n) == {Err("variable named like a parameter of the component", {Loc("components", n.comps[i].name, -1)}) :
+                       i \in {j \in DOMAIN n.comps : VarNames(n.comps[j]) \cap ParamNames(n.comps[j].params) # {}}}
+
+StructErrs(n) == LET ee == EntryErrs(n) IN IF ee # {} THEN ee ELSE TmplErrs(n, n.entry, {}) \cup ConflictErrs(n)
 
 (* 3.3 Flatten: the component instances, in execute order, depth first.  Only evaluated when StructErrs = {}.    *)
 (* path: the step names from the entry workflow down to the component (the unique identity of the instance);     *)
@@ -185,7 +201,7 @@ StructErrs(n) == LET ee == EntryErrs(n) IN IF ee # {} THEN ee ELSE TmplErrs(n, n
 RECURSIVE Walk(_, _, _, _, _), WalkSteps(_, _, _, _, _)
 Walk(n, t, path, env, site) ==
     IF HasWf(n, t) THEN WalkSteps(n, Wf(n, t), 1, path, env)
-    ELSE << [path |-> path, tmpl |-> t, site |-> site, env |-> env, args |-> Resolve(Comp(n, t).args, env, <<>>)] >>
+    ELSE << [path |-> path, tmpl |-> t, site |-> site, env |-> env, args |-> ResolveInComponent(Comp(n, t), env)] >>
 WalkSteps(n, w, i, path, env) ==
     IF i > Len(w.exec) THEN <<>>
     ELSE LET e == w.exec[i]
@@ -225,9 +241,13 @@ SemErrs(flat) ==
                  r \in {x \in EnvRefs(inst) : x.m = "" /\ ~\E a \in RefToks(inst.args) : a.segs = x.segs /\ a.m # ""}}
         \cup {Err("text left after a reference", {inst.site}) : r \in {j \in DOMAIN inst.args : inst.args[j].k = "sfx"}}
       : i \in DOMAIN flat }
-    \cup (LET cyc == CyclicPaths(flat)
-          IN IF cyc # {} THEN {Err("steps form a dataflow cycle", {flat[i].site : i \in {j \in DOMAIN flat : flat[j].path \in cyc}})}
-             ELSE {})
+    \cup (LET E   == Edges(flat)
+              cyc == CyclicPaths(flat)
+              \* the cycle(s) through p: everything that p reaches and that reaches p
+              scc(p) == {q \in cyc : q \in Reach(E, {p}, Len(flat)) /\ p \in Reach(E, {q}, Len(flat))}
+          \* one error per set of steps that consume each other's output; it is located by ANY step of the set
+          \* (the statement asks for the offending locations: every cycle must be pointed at, not every member)
+          IN {Err("steps form a dataflow cycle", {flat[i].site : i \in {j \in DOMAIN flat : flat[j].path \in scc(p)}}) : p \in cyc})
     \cup {[what |-> "component step name ends with a digit", alts |-> {flat[i].site}, soft |-> TRUE] :
              i \in {j \in DOMAIN flat : Len(flat[j].path) > 0 /\ Info(flat[j].path[Len(flat[j].path)]).dg}}
 
@@ -336,7 +356,12 @@ BuildWf(c, k) ==
         inner  == k < c.d
         two    == inner /\ c.reuse >= k
         \* the producer
-        pStep  == [name |-> pname, tmpl |-> IF mu("unkTemplate") THEN "nosuch" ELSE IF mu("unkParTmpl") THEN "prodBad" ELSE "prod"]
+        pStep  == [name |-> pname, tmpl |-> CASE mu("unkTemplate")      -> "nosuch"
+                                               [] mu("unkParTmpl")       -> "prodBad"
+                                               [] mu("varShadowsParam")  -> "prodM"
+                                               [] c.vr = "priv"          -> "prodV"
+                                               [] c.vr = "shadow"        -> "prodG"
+                                               [] OTHER                  -> "prod"]
         pArgs  == (IF mu("unkParRef") THEN <<A("m", <<Par("zz")>>)>> ELSE MArgs(c.bm)) \o Opt(mu("unkArg"), <<A("zz", <<Lit("1")>>)>>)
         \* the nested workflow(s)
         pdown  == IF k = 1 THEN PVal(c.pd, <<pname>>, file) ELSE <<Par("p")>>
@@ -368,6 +393,9 @@ BuildWf(c, k) ==
                   \o <<[name |-> cn, tmpl |-> ctmpl]>>
                   \o Opt(has2,  <<[name |-> C2Name(c.nm), tmpl |-> c2tmpl]>>)
                   \o Opt(mu("dataCycle"), <<[name |-> "dd", tmpl |-> "consA"]>>)
+                  \o Opt(mu("dataCycle") /\ c.cl = 3,  <<[name |-> "de", tmpl |-> "consA"]>>)
+                  \o Opt(mu("dataCycle") /\ c.cx >= 1, <<[name |-> "dz", tmpl |-> "consA"]>>)
+                  \o Opt(mu("dataCycle") /\ c.cx >= 2, <<[name |-> "dy", tmpl |-> "consA"]>>)
                   \o Opt(mu("wfCycle"),   <<[name |-> "cyc", tmpl |-> "main"]>>)
                   \o Opt(mu("noExec"),    <<[name |-> "lonely", tmpl |-> "prod"]>>)
         exec   == <<[target |-> pname, args |-> pArgs]>>
@@ -375,7 +403,13 @@ BuildWf(c, k) ==
                   \o Opt(two,   <<[target |-> W2, args |-> w2Args]>>)
                   \o <<[target |-> cn, args |-> cArgs]>>
                   \o Opt(has2,  <<[target |-> C2Name(c.nm), args |-> <<A("x", c2x)>> \o c2y]>>)
-                  \o Opt(mu("dataCycle"), <<[target |-> "dd", args |-> <<A("x", <<Ref(<<cn>>, 0, FALSE, "ref")>>)>>]>>)
+                  \* the cycle: cn -> dd (-> de) -> cn, i.e. cn consumes dd, dd consumes (de, which consumes) cn; the producer of
+                  \* the level still feeds cn from outside the cycle; dz and dy consume cycle members without being on the
+                  \* cycle and are listed last, as one would write them
+                  \o Opt(mu("dataCycle"), <<[target |-> "dd", args |-> <<A("x", <<Ref(<<IF c.cl = 3 THEN "de" ELSE cn>>, 0, FALSE, "ref")>>)>>]>>)
+                  \o Opt(mu("dataCycle") /\ c.cl = 3,  <<[target |-> "de", args |-> <<A("x", <<Ref(<<cn>>, 0, FALSE, "ref")>>)>>]>>)
+                  \o Opt(mu("dataCycle") /\ c.cx >= 1, <<[target |-> "dz", args |-> <<A("x", <<Ref(<<"dd">>, 0, FALSE, "ref")>>)>>]>>)
+                  \o Opt(mu("dataCycle") /\ c.cx >= 2, <<[target |-> "dy", args |-> <<A("x", <<Ref(<<cn>>, 0, FALSE, "output")>>)>>]>>)
                   \o Opt(mu("wfCycle"),   <<[target |-> "cyc", args |-> <<>>]>>)
                   \o Opt(mu("execNoStep"), <<[target |-> "ghost", args |-> <<>>]>>)
                   \o Opt(mu("dupExec"),   <<[target |-> pname, args |-> pArgs]>>)
@@ -384,18 +418,25 @@ BuildWf(c, k) ==
         steps  |-> steps,
         exec   |-> IF c.ord = "rev" THEN Rev(exec) ELSE exec]
 
-CompTemplates ==
-    << [name |-> "prod",  params |-> <<P("m", TRUE, <<Lit("dm")>>)>>, args |-> <<Lit("-m "), Par("m")>>],
-       [name |-> "consT", params |-> <<P("x", FALSE, <<>>), P("y", TRUE, <<Lit("dy")>>)>>,
+V(name, v) == [n |-> name, v |-> v]
+PM == <<P("m", TRUE, <<Lit("dm")>>)>>
+CompTemplates(c) ==
+    << [name |-> "prod",  params |-> PM, vars |-> <<>>, args |-> <<Lit("-m "), Par("m")>>],
+       [name |-> "consT", params |-> <<P("x", FALSE, <<>>), P("y", TRUE, <<Lit("dy")>>)>>, vars |-> <<>>,
                           args |-> <<ParX("x", <<>>, "ref"), Lit(" "), Par("y")>>],                    \* %(x)s:ref %(y)s
-       [name |-> "consA", params |-> <<P("x", FALSE, <<>>), P("y", TRUE, <<Lit("dy")>>)>>,
+       [name |-> "consA", params |-> <<P("x", FALSE, <<>>), P("y", TRUE, <<Lit("dy")>>)>>, vars |-> <<>>,
                           args |-> <<Par("x"), Lit(" "), Par("y")>>],                                  \* %(x)s %(y)s
-       [name |-> "prodBad", params |-> <<P("m", TRUE, <<Lit("dm")>>)>>, args |-> <<Lit("-m "), Par("m"), Par("zz")>>] >>
+       [name |-> "prodBad", params |-> PM, vars |-> <<>>, args |-> <<Lit("-m "), Par("m"), Par("zz")>>],
+       \* private variables: v is used by nobody else; g is also the name of a parameter of every workflow of the family
+       [name |-> "prodV", params |-> PM, vars |-> <<V("v", "V1"), V("unused", "U")>>, args |-> <<Lit("-m "), Par("m"), Lit(" "), Par("v")>>],
+       [name |-> "prodG", params |-> PM, vars |-> <<V("g", "VG")>>, args |-> <<Par("g"), Lit(" -m "), Par("m"), Lit(" "), Par("g")>>] >>
+    \* a template whose variable is called like its own parameter is an error wherever it is: only present when mutated
+    \o Opt(c.mut = "varShadowsParam", <<[name |-> "prodM", params |-> PM, vars |-> <<V("m", "VM")>>, args |-> <<Lit("-m "), Par("m")>>]>>)
 
 Build(c) == [entry |-> IF c.mut = "unkEntry" THEN "nosuch" ELSE "main",
              eargs |-> EArgs(c.bm) \o Opt(c.mut = "entryUnkArg", <<A("zz", <<Lit("1")>>)>>),
              wfs   |-> [k \in 1..c.d |-> BuildWf(c, k)],
-             comps |-> CompTemplates]
+             comps |-> CompTemplates(c)]
 
 (* which levels a mutation can be applied to *)
 MutLevels(mu, d) == CASE mu \in {"unkEntry", "entryUnkArg", "missingEntry", "methodless"} -> {1}
@@ -405,20 +446,29 @@ MutLevels(mu, d) == CASE mu \in {"unkEntry", "entryUnkArg", "missingEntry", "met
                       [] OTHER -> 1..d
 
 Canon(c) == c.sp = "bareT" /\ c.pd = "bare"
-Choice(d, reuse, ord, nm, sp, pd, bm, mut, ml) ==
-    [d |-> d, reuse |-> reuse, ord |-> ord, nm |-> nm, sp |-> sp, pd |-> pd, bm |-> bm, mut |-> mut, ml |-> ml]
+(* vr: variable mode; cl, cx: length of the dataflow cycle and number of extra consumers of cycle members (dataCycle only) *)
+Choice(d, reuse, ord, nm, sp, pd, bm, mut, ml, vr, cl, cx) ==
+    [d |-> d, reuse |-> reuse, ord |-> ord, nm |-> nm, sp |-> sp, pd |-> pd, bm |-> bm, mut |-> mut, ml |-> ml,
+     vr |-> vr, cl |-> cl, cx |-> cx]
 ValidChoices ==
-    {c \in {Choice(d, reuse, ord, nm, sp, pd, bm, "none", 0) :
-               d \in Depths, reuse \in Reuses, ord \in Orders, nm \in Namings, sp \in Spellings, pd \in PassDowns, bm \in Bindings} :
+    {c \in {Choice(d, reuse, ord, nm, sp, pd, bm, "none", 0, vr, 0, 0) :
+               d \in Depths, reuse \in Reuses, ord \in Orders, nm \in Namings, sp \in Spellings, pd \in PassDowns, bm \in Bindings,
+               vr \in VarModes} :
+        /\ (c.vr # "none" => (Canon(c) /\ c.nm \in MutNamings))      \* variables are orthogonal to the reference spelling
         /\ c.reuse < c.d                                     \* reuse level r needs depth > r
         /\ (c.d = 1 => c.pd = "bare")                        \* no pass-down without nesting
         /\ (c.sp = "qcut" => c.d >= 2)
         /\ (Full \/ c.bm = "dflt" \/ Canon(c))
         /\ (Full \/ c.nm \notin {"sufclash", "st0clash"} \/ (Canon(c) /\ c.bm = "dflt"))}
 MutChoices ==
-    {c \in {Choice(d, reuse, "fwd", nm, "bareT", "bare", "dflt", mu, ml) :
-               d \in Depths, reuse \in Reuses \cap {0, 1}, nm \in MutNamings, mu \in Muts, ml \in 1..3} :
+    {c \in {Choice(d, reuse, "fwd", nm, "bareT", "bare", "dflt", mu, ml, "none", 0, 0) :
+               d \in Depths, reuse \in Reuses \cap {0, 1}, nm \in MutNamings, mu \in Muts \ {"dataCycle"}, ml \in 1..3} :
         c.reuse < c.d /\ c.ml \in MutLevels(c.mut, c.d)}
+    \cup
+    \* dataflow cycles of length 2 and 3 at every level, with 0, 1, 2 consumers that are not on the cycle, in both execute orders
+    {c \in {Choice(d, reuse, ord, nm, "bareT", "bare", "dflt", "dataCycle", ml, "none", cl, cx) :
+               d \in Depths, reuse \in Reuses \cap {0, 1}, ord \in Orders, nm \in MutNamings, ml \in 1..3, cl \in {2, 3}, cx \in {0, 1, 2}} :
+        "dataCycle" \in Muts /\ c.reuse < c.d /\ c.ml \in 1..c.d}
 Choices == ValidChoices \cup MutChoices
 
 ---------------------------------------------------------------------------
@@ -466,7 +516,9 @@ OnePerStep == Compiled => Len(flat) = CountComps(ns, ns.entry)
 
 (* every parameter reference has been replaced *)
 NoParamLeft == Compiled => \A i \in DOMAIN flat :
-                  /\ \A j \in DOMAIN flat[i].args : flat[i].args[j].k \in {"lit", "ref"}
+                  /\ \A j \in DOMAIN flat[i].args : \/ flat[i].args[j].k \in {"lit", "ref"}
+                                                      \/ /\ flat[i].args[j].k = "var"      \* only a declared private variable may stay
+                                                         /\ flat[i].args[j].s \in VarNames(Comp(ns, flat[i].tmpl))
                   /\ \A q \in DOMAIN flat[i].env : \A j \in DOMAIN flat[i].env[q] : flat[i].env[q][j].k \in {"lit", "ref"}
 (* the value of a parameter is the caller's argument when one is given, the declared default otherwise:         *)
 (* checked for the plain parameter m of the producers against the binding mode of the family (independent of     *)
@@ -479,7 +531,11 @@ ExpectedM(c, k) == CASE c.bm = "dflt" -> <<"dm">>
                      [] c.bm = "ovr"  -> <<<<"E">>, <<"ov">>, <<"dsub">>>>[k]
                      [] c.bm = "emb"  -> IF k = 1 THEN <<"x", "E", "-", "E">> ELSE <<"x", "E", "hh", "-", "E">>
 BindingsAsDeclared == (Compiled /\ ch.mut = "none") =>
-                         \A i \in DOMAIN flat : flat[i].tmpl = "prod" => Text(flat[i].env["m"]) = ExpectedM(ch, Len(flat[i].path))
+                         \A i \in DOMAIN flat : flat[i].tmpl \in {"prod", "prodV", "prodG"} =>
+                                                    Text(flat[i].env["m"]) = ExpectedM(ch, Len(flat[i].path))
+(* a private variable is invisible to the caller: whatever the component declares, the arguments written by the   *)
+(* caller never contain a variable reference after resolution (they are bound in the caller's scope)              *)
+VariablesArePrivate == Compiled => \A i \in DOMAIN flat : \A q \in DOMAIN flat[i].env : \A j \in DOMAIN flat[i].env[q] : flat[i].env[q][j].k # "var"
 
 (* the file below the producer that the x argument of a consumer names is the one written in the source, however  *)
 (* the reference was spelled and whichever level appended it (again written down per mode, independent of Resolve) *)
@@ -523,7 +579,7 @@ CodeNamingInjective == Compiled => ~CodeClash(ns)
 Annot(f, t) == IF t.k = "ref" /\ HasProducer(f, t)
                THEN [k |-> "ref", s |-> "", prod |-> ProducerOf(f, t), file |-> SubSeq(t.segs, Len(ProducerOf(f, t)) + 1, Len(t.segs)), m |-> t.m]
                ELSE [k |-> t.k, s |-> t.s, prod |-> <<>>, file |-> t.segs, m |-> t.m]
-EmitInst(f, inst) == [path |-> inst.path, tmpl |-> inst.tmpl, site |-> inst.site,
+EmitInst(f, inst) == [path |-> inst.path, tmpl |-> inst.tmpl, site |-> inst.site, vars |-> Comp(ns, inst.tmpl).vars,
                       args |-> [j \in DOMAIN inst.args |-> Annot(f, inst.args[j])],
                       refs |-> {Annot(f, r) : r \in InstRefs(inst)}]
 EmitCase == (Emit /\ phase # "src") =>
